@@ -161,6 +161,11 @@ func randSizes(r *rng, n int, kind int) []int {
 		}
 	case 4: // a single split point
 		o = append(o, r.intn(n+1))
+	case 6: // a zero-length read before every read that returns data (hundreds of them over a document, never two in a row)
+		step := 20 + r.intn(180)
+		for got := 0; got < n; got += step {
+			o = append(o, 0, step)
+		}
 	default: // everything at once
 	}
 	return o
@@ -255,6 +260,10 @@ func sampleDocs() map[string][][]byte {
 			o[ext] = append(o[ext], b)
 		}
 	}
+	// characters of two, three and four bytes: a read may end inside any of them
+	o["srt"] = append(o["srt"], []byte("1\n00:00:01,000 --> 00:00:02,000\né 日本 😀 x 𝒳\n<i>😀</i>\n\n2\n00:00:03,000 --> 00:00:04,000\n😀😀\n"))
+	o["vtt"] = append(o["vtt"], []byte("WEBVTT\n\n00:00:01.000 --> 00:00:02.000\n<v Zoé 😀>é 日本 😀 x 𝒳\n<i>😀</i>\n\nNOTE 😀\n\n00:00:03.000 --> 00:00:04.000\n😀😀\n"))
+	o["ssa"] = append(o["ssa"], []byte("[Script Info]\nTitle: 😀 é\n\n[Events]\nFormat: Start, End, Text\nDialogue: 0:00:01.00,0:00:02.00,é 日本 😀 x 𝒳\\N😀\n"))
 	// SSA documents of about 3 kB and 9 kB: long enough for the scanner to shift and refill its buffer while values
 	// of the first lines are still held
 	for _, n := range []int{24, 80} {
@@ -442,7 +451,7 @@ func init() {
 					c.do(fmt.Sprintf("io.sched %s %s eof %d", f, encBytes(d), k))
 					c.count("split-points")
 				}
-				for kind := 0; kind < 4; kind++ {
+				for _, kind := range []int{0, 1, 2, 3, 6} {
 					for _, end := range []string{"eof", "weof"} {
 						c.do(fmt.Sprintf("io.sched %s %s %s %s", f, encBytes(d), end, encInts(randSizes(r, len(d), kind))))
 						c.count("schedules")
